@@ -397,6 +397,57 @@ func c47StaleRegression() string {
 	return ""
 }
 
+// c47ForgottenOutputRegression: steady state {a,b,c}; b starts to reference an unset variable and
+// applies fail; c is removed while they fail; b is repaired; the next successful apply must leave
+// exactly {a,b} in the output directory (the record of written outputs must survive a failed apply).
+func c47ForgottenOutputRegression() string {
+	root, err := os.MkdirTemp("", "c47f")
+	if err != nil {
+		return ""
+	}
+	defer os.RemoveAll(root)
+	in, out := filepath.Join(root, "in"), filepath.Join(root, "out")
+	_ = os.MkdirAll(in, 0o755)
+	_ = os.MkdirAll(out, 0o755)
+	os.Unsetenv(c47VarU)
+	for _, n := range []string{"a.yaml", "b.yaml", "c.yaml"} {
+		_ = os.WriteFile(filepath.Join(in, n), []byte("x-"+n), 0o644)
+	}
+	u, _ := url.Parse("http://c47.invalid:9090")
+	frt := &c47RT{}
+	r := New(nil, nil, &Options{ReloadURL: ReloadURLFromBase(u), WatchInterval: time.Hour, RetryInterval: time.Millisecond,
+		CfgDirs: []CfgDirOption{{Dir: in, OutputDir: out}}, HTTPClient: http.Client{Transport: frt}})
+	ctx, cancel := context.WithCancel(context.Background())
+	defer cancel()
+	frt.arm(nil, true, cancel)
+	if err := r.apply(ctx); err != nil {
+		return "" // harness: first apply failed, nothing to replay
+	}
+	_ = os.WriteFile(filepath.Join(in, "b.yaml"), []byte("$("+c47VarU+")"), 0o644)
+	frt.arm(nil, true, cancel)
+	if err := r.apply(ctx); err == nil {
+		return "" // the unset reference did not fail the apply: different behaviour, nothing to replay
+	}
+	_ = os.Remove(filepath.Join(in, "c.yaml"))
+	frt.arm(nil, true, cancel)
+	_ = r.apply(ctx) // still failing
+	_ = os.WriteFile(filepath.Join(in, "b.yaml"), []byte("repaired"), 0o644)
+	frt.arm(nil, true, cancel)
+	if err := r.apply(ctx); err != nil {
+		return "apply after the repair failed: " + err.Error()
+	}
+	entries, _ := os.ReadDir(out)
+	var have []string
+	for _, e := range entries {
+		have = append(have, e.Name())
+	}
+	sort.Strings(have)
+	if strings.Join(have, ",") != "a.yaml,b.yaml" {
+		return fmt.Sprintf("inputs {a,b,c} applied; b references an unset variable (apply fails); c removed; b repaired; apply succeeds; output dir holds [%s], inputs are [a.yaml,b.yaml]", strings.Join(have, ","))
+	}
+	return ""
+}
+
 func TestVerifC47(t *testing.T) {
 	rec := kit.For(t, "C47")
 	known := kit.KnownFindings("C47")
@@ -404,6 +455,11 @@ func TestVerifC47(t *testing.T) {
 		if known[sigC47Stale] {
 			rec.Known(sigC47Stale, msg)
 		} else {
+			rec.Violation(t, "regression: %s", msg)
+		}
+	}
+	if kit.Scale("c47fixed", 1, 1) != 0 { // VERIF_N_c47fixed=0: measure the generated histories alone
+		if msg := c47ForgottenOutputRegression(); msg != "" {
 			rec.Violation(t, "regression: %s", msg)
 		}
 	}
